@@ -141,7 +141,8 @@ def analyse(repo, R, taken, findings):
         kind, comp = role[taxis]
         got = idx[k]
         if kind == "iota":
-            if not isinstance(got, ARange):
+            from ..stencil import Iota
+            if not isinstance(got, Iota):
                 findings.append(Finding("GATHER", None, f"[{tag}] axis {k} of the selection (table axis {taxis}) must be kept whole; it is indexed by {got}",
                                         construct=f"selection axis {k} {tag}"))
         else:
